@@ -10,6 +10,11 @@ CLAIMED = {
         technique="deterministic simulation with fault injection on stored path data: seeded torn/lost/duplicated/corrupted records, crash-consistency oracles on the partially built path, deterministic step budget",
         text="Fault model on stored path data (truncation at any position, token delete/duplicate/replace, character flips incl. control/non-ASCII, junk insertion, missing current point, bad flags, very long inputs) injected into grammar-directed strings and bare fragments; each run checks exception type, a deterministic line-step budget (termination), that the parse of the longest grammar-conforming prefix (independent recogniser) is retained unaltered, and that d()/bbox()/length()/abs(p*M) work on whatever was left behind. Fault kinds and positions are sampled per seed, not enumerated exhaustively.",
         note="Trusted: the independent SVG 2 grammar recogniser in sim/gen_path.py (where SVG 1.1 and 2 disagree the prefix oracle is skipped and counted); the step-budget constants (20x the pinned tree's maximum); None is accepted only where no current point exists yet (documented path fragments); inf/nan literals skip the follow-up operations."),
+    "C16": dict(
+        level="exploration", ref="DESIGN.md 5.3",
+        technique="deterministic simulation: seeded histories of reversals through shared handles (path, fresh and stale subpath views) interleaved with transforms/copies/observers, checked step by step against an executable reference model",
+        text="Seeded search over operation histories on one shared segment list reached through several handles (Path.reverse, Subpath.reverse via fresh and stale views, transform+reify, copy-and-continue, observers); after every step the real path is compared with a reference model (subpaths of sampled primitives, q(t)=p(1-t), sweep negated), connectivity is recomputed from public fields, untouched subpaths must be bit-identical, and two consecutive reversals must restore the canonical form. One known finding (view reversal next to a move-less subpath) is listed in known_findings.json. Sampling, not proof.",
+        note="Trusted: the model's independent subpath partition (SVG rule) and canonical form (a move-only subpath coinciding with a neighbouring point is dropped); tolerance 1e-9*scale, 1e-6*radius for interior arc samples (atan2/sqrt conditioning); arcs are only transformed by similarities/reflections; model re-based from the real path after transforms and copies so that C02/C18 defects cannot alarm here."),
     "C17": dict(
         level="exploration", ref="DESIGN.md 5.4",
         technique="deterministic simulation: seeded append histories checked step by step against a single-copy reference (one-shot parse)",
@@ -18,7 +23,6 @@ CLAIMED = {
 }
 BUILDING = {
  "C10": "check under construction (claimed in DESIGN.md 5.2; not yet registered, so not claimed at this commit)",
- "C16": "check under construction (claimed in DESIGN.md 5.3; not yet registered, so not claimed at this commit)",
  "C18": "check under construction (claimed in DESIGN.md 5.5; not yet registered, so not claimed at this commit)",
  "C20": "check under construction (claimed in DESIGN.md 5.6; not yet registered, so not claimed at this commit)",
 }
